@@ -254,10 +254,14 @@ package tor
 //@ func (*Reader).chunks
 //@   trusted
 //@   ensures  pos < 0 ==> len($r0) == 0
-// Torrent.Request: NOT verified here (channel rendezvous with the event loop, C10/C17).
+// Torrent.Request: its effects are NOT verified (channel rendezvous with the
+// event loop; callers see no effect on their own state); PARTIAL check (C17):
+// every blocking channel operation also waits for Done.
 //@ func (*Torrent).Request
-//@   trusted
 //@   requires t != nil
+//@   waitsfor t.Done
+//@   focus    blocking
+//@   props    C17
 
 //@ func (*Reader).request
 //@   requires r != nil && (r.torrent == nil ==> r.requestedIndex < 0 && len(r.requested) == 0 && pos < 0) && (r.torrent != nil ==> PGeom(r.torrent))
@@ -275,6 +279,7 @@ package tor
 // left; the cursor advances by exactly n; end-of-file exactly at length.
 //@ func (*Reader).Read
 //@   requires r != nil && r.context != nil && RdOK(r)
+//@   waitsfor r.torrent.Done
 //@   modifies r.position, r.requested, r.requestedIndex, r.ch, a[_], ctxDone(r.context)
 //@   ensures  [closed]   r.torrent == nil ==> n == 0 && err != nil
 //@   ensures  [n]        0 <= n && n <= len(a)
@@ -285,7 +290,7 @@ package tor
 //@   ensures  [verified] n > 0 ==> RVerified(r.torrent, r.offset + old(r.position))
 //@   ensures  [bytes]    forall k int :: 0 <= k && k < n ==> a[k] == RByte(r.torrent, r.offset + old(r.position), k)
 //@   ensures  [ok]       RdOK(r)
-//@   props    C02
+//@   props    C02 C17
 
 //@ func (*Reader).Close
 //@   requires r != nil && RdOK(r)
@@ -526,3 +531,97 @@ package tor
 //@   ensures  [ceil]  have && int(index) < old(len(t.available)) && old(t.available[index]) == 65535 ==> t.available[index] == 65535
 //@   ensures  [others] forall k int :: 0 <= k && k < old(len(t.available)) && k != int(index) ==> t.available[k] == old(t.available[k])
 //@   props    C09
+
+// ---- Lifecycle (C17): no API call can outlive the torrent ----
+// Structural condition, checked at every channel operation of every blocking
+// operation of a torrent: it is a select that ALSO receives from t.Done (which
+// the event loop closes when it exits), both when the command is queued and
+// when its answer is awaited -- so whatever the interleaving with deletion,
+// the call returns (with a result or ErrTorrentDead) as soon as Done is closed.
+// Kill: first select waits for Done; once the GoAway is queued it waits for
+// Deleted (closed by the wrapper after the loop has exited and Done is closed)
+// or the caller's context.
+//@ func (*Torrent).Kill
+//@   requires t != nil
+//@   waitsfor t.Done, t.Deleted
+//@   modifies *
+//@   focus    blocking
+//@   props    C17
+//@ func (*Torrent).NewPeer
+//@   requires t != nil
+//@   waitsfor t.Done
+//@   modifies *
+//@   focus    blocking
+//@   props    C17
+//@ func (*Torrent).AddKnown
+//@   requires t != nil
+//@   waitsfor t.Done
+//@   modifies *
+//@   focus    blocking
+//@   props    C17
+//@ func (*Torrent).BadPeer
+//@   requires t != nil
+//@   waitsfor t.Done
+//@   modifies *
+//@   focus    blocking
+//@   props    C17
+//@ func (*Torrent).GetStats
+//@   requires t != nil
+//@   waitsfor t.Done
+//@   modifies *
+//@   focus    blocking
+//@   props    C17
+//@ func (*Torrent).GetAvailable
+//@   requires t != nil
+//@   waitsfor t.Done
+//@   modifies *
+//@   focus    blocking
+//@   props    C17
+//@ func (*Torrent).DropPeer
+//@   requires t != nil
+//@   waitsfor t.Done
+//@   modifies *
+//@   focus    blocking
+//@   props    C17
+//@ func (*Torrent).GetPeer
+//@   requires t != nil
+//@   waitsfor t.Done
+//@   modifies *
+//@   focus    blocking
+//@   props    C17
+//@ func (*Torrent).GetPeers
+//@   requires t != nil
+//@   waitsfor t.Done
+//@   modifies *
+//@   focus    blocking
+//@   props    C17
+//@ func (*Torrent).GetKnown
+//@   requires t != nil
+//@   waitsfor t.Done
+//@   modifies *
+//@   focus    blocking
+//@   props    C17
+//@ func (*Torrent).GetKnowns
+//@   requires t != nil
+//@   waitsfor t.Done
+//@   modifies *
+//@   focus    blocking
+//@   props    C17
+//@ func (*Torrent).Have
+//@   requires t != nil
+//@   waitsfor t.Done
+//@   modifies *
+//@   focus    blocking
+//@   props    C17
+//@ func (*Torrent).GetConf
+//@   requires t != nil
+//@   waitsfor t.Done
+//@   modifies *
+//@   focus    blocking
+//@   props    C17
+//@ func (*Torrent).SetConf
+//@   requires t != nil
+//@   waitsfor t.Done
+//@   modifies *
+//@   focus    blocking
+//@   props    C17
